@@ -9,6 +9,17 @@
 
 using namespace hvm;
 
+// C11 "never allocates": every operator new while a library call is in progress is counted
+static volatile bool g_allocWatch = false; static volatile unsigned long g_allocsInLibrary = 0;
+void* operator new(std::size_t n) { if (g_allocWatch) ++g_allocsInLibrary; void* p = std::malloc(n ? n : 1); if (!p) std::abort(); return p; }
+void* operator new[](std::size_t n) { if (g_allocWatch) ++g_allocsInLibrary; void* p = std::malloc(n ? n : 1); if (!p) std::abort(); return p; }
+void operator delete(void* p) noexcept { std::free(p); }
+void operator delete[](void* p) noexcept { std::free(p); }
+void operator delete(void* p, std::size_t) noexcept { std::free(p); }
+void operator delete[](void* p, std::size_t) noexcept { std::free(p); }
+struct LibCall { LibCall() { g_allocWatch = true; } ~LibCall() { g_allocWatch = false; } };
+#define LIB(stmt) do { LibCall hv_lib_call_; stmt; } while (0)
+
 namespace {
 
 //------------------------------------------------------------------------------
@@ -82,22 +93,25 @@ struct Inst {
 	std::vector<Req> lastFirstExpected; std::vector<uint32_t> lastFirstTags;
 	int8_t activity[HV_NS]; bool activityKnown = false;
 	bool planExists[HV_REGION_COUNT > 0 ? HV_REGION_COUNT : 1]; bool markS[HV_NS], markF[HV_NS], markS0[HV_NS], markF0[HV_NS];   // C06 bookkeeping (marks outstanding now / at the start of the step)
+	bool degeneratePlanDest = false;   // a plan holds (held) a task whose destination is an orthogonal region without composite ancestor (F29)
 	bool inUpdateOrReact = false;
 	bool outstandingMarks = false;   // success/failure marks set outside update()/react() (externally or from a guard) not yet consumed
 	bool modelValid = true;          // false after an op the configuration model does not cover (resynchronised afterwards)
 	bool plansUsed = false;
 
 	Inst() { for (auto& e : entered) e = false; for (auto& a : addr) a = nullptr; for (auto& p : planExists) p = false; for (int i = 0; i < HV_NS; ++i) markS[i] = markF[i] = false; }
-	void clearPlanBook() { for (auto& p : planExists) p = false; for (int i = 0; i < HV_NS; ++i) markS[i] = markF[i] = false; }
+	void clearPlanBook() { degeneratePlanDest = false; for (auto& p : planExists) p = false; for (int i = 0; i < HV_NS; ++i) markS[i] = markF[i] = false; }
 	~Inst() { destroy(); }
 	void build(uint8_t fill, bool withLogger = true) {
 		std::memset(storage, fill, sizeof storage);
 		ctx.owner = this; rng.ctx = &ctx;
+		g_allocWatch = true;
 #ifdef HV_RNG_BUILTIN
 		fsm = new (storage) Instance{ctx, withLogger ? &logger : nullptr};
 #else
 		fsm = new (storage) Instance{ctx, rng, withLogger ? &logger : nullptr};
 #endif
+		g_allocWatch = false;
 		everBuilt = true; loggerOn = withLogger;
 		stateAddresses(*fsm, addr);
 	}
@@ -199,7 +213,7 @@ struct Walker {
 		if (x.overflow) st.cls("trace_overflow");
 		{ bool inRound = false;
 		  for (int i = 0; i < x.n; ++i) { const Ev& e = x.tr[i];
-			if (e.kind == E_ACT_PLAN) in.plansUsed = true;
+			if (e.kind == E_ACT_PLAN) { in.plansUsed = true; if (e.method != 255 && e.b > 0 && e.b < HV_NS && node(e.b).kind == ORTHO) { bool onlyOrtho = true; for (int c = node(e.b).parent; c >= 0; c = node(c).parent) if (node(c).kind != ORTHO) onlyOrtho = false; if (onlyOrtho) in.degeneratePlanDest = true; } }
 			if (e.kind == E_ROUND) inRound = true;
 			// marks set while transitions are being processed are not consumed by this step's plan update
 			if ((e.kind == E_ACT_SUCCEED || e.kind == E_ACT_FAIL) && (inRound || !in.inUpdateOrReact)) in.outstandingMarks = true;
@@ -212,6 +226,7 @@ struct Walker {
 			if (!classifyKnownBreak(in, b)) S.violation("C11", buf);
 			b = hv::BreakLatch{};
 		}
+		if (g_allocsInLibrary) { std::snprintf(buf, sizeof buf, "the library allocated dynamic memory %lu time(s) during %s (step %u)", (unsigned long) g_allocsInLibrary, what, S.stepNo); S.violation("C11", buf); g_allocsInLibrary = 0; }
 		// C01: configuration invariant through the instance's own answers
 		char why[200];
 		if (!configWellFormed(*in.fsm, expectOn, why, sizeof why)) { std::snprintf(buf, sizeof buf, "after %s (step %u): %s", what, S.stepNo, why); S.violation("C01", buf); }
@@ -241,7 +256,7 @@ struct Walker {
 				bool degenerate = false;
 				for (int i = 0; i < in.ctx.n; ++i) { const Ev& e = in.ctx.tr[i]; if ((e.kind == E_ACT_REQ || e.kind == E_PEND || e.kind == E_LOG_TRANSITION) && e.a != T_SCHEDULE && e.b > 0 && e.b < HV_NS && node(e.b).kind == ORTHO) { bool onlyOrtho = true; for (int c = node(e.b).parent; c >= 0; c = node(c).parent) if (node(c).kind != ORTHO) onlyOrtho = false; if (onlyOrtho) degenerate = true; } }
 				for (auto& q : in.queued) if (q.type != T_SCHEDULE && q.dest > 0 && node(q.dest).kind == ORTHO) { bool onlyOrtho = true; for (int c = node(q.dest).parent; c >= 0; c = node(c).parent) if (node(c).kind != ORTHO) onlyOrtho = false; if (onlyOrtho) degenerate = true; }
-				if (degenerate) return S.known("F29");
+				if (degenerate || in.degeneratePlanDest) return S.known("F29");
 			}
 		}
 		// F14: the request queue is not empty after the substitution limit was reached
@@ -314,13 +329,17 @@ struct Walker {
 #if HV_PAYLOAD != 0
 		if (tag != NO_TAG) {
 			const Payload p = makePayload(tag);
+			g_allocWatch = true;
 			if (immediate) switch (type) { case 0: f.immediateChangeWith(d, p); break; case 1: f.immediateRestartWith(d, p); break; case 2: f.immediateResumeWith(d, p); break; case 3: f.immediateSelectWith(d, p); break; case 4: f.immediateUtilizeWith(d, p); break; default: f.immediateRandomizeWith(d, p); break; }
 			else switch (type) { case 0: f.changeWith(d, p); break; case 1: f.restartWith(d, p); break; case 2: f.resumeWith(d, p); break; case 3: f.selectWith(d, p); break; case 4: f.utilizeWith(d, p); break; case 5: f.randomizeWith(d, p); break; default: f.scheduleWith(d, p); break; }
+			g_allocWatch = false;
 			afterwards(); return;
 		}
 #endif
+		LibCall hv_lib_call_;
 		if (immediate) switch (type) { case 0: f.immediateChangeTo(d); break; case 1: f.immediateRestart(d); break; case 2: f.immediateResume(d); break; case 3: f.immediateSelect(d); break; case 4: f.immediateUtilize(d); break; default: f.immediateRandomize(d); break; }
 		else switch (type) { case 0: f.changeTo(d); break; case 1: f.restart(d); break; case 2: f.resume(d); break; case 3: f.select(d); break; case 4: f.utilize(d); break; case 5: f.randomize(d); break; default: f.schedule(d); break; }
+		g_allocWatch = false;
 		afterwards();
 	}
 
@@ -368,6 +387,8 @@ void Walker::judgeProcessing(Inst& in, const char* what, const Cfg& before, cons
 	for (int i = 0; i < x.n && (rs.empty() || i < rs[0].firstEv); ++i) if (x.tr[i].kind == E_ACT_REQ && x.tr[i].state >= 0) { pre.push_back(Req{x.tr[i].a, x.tr[i].b}); preTags.push_back(x.tr[i].tag); }
 	std::vector<Req> firstExpected = in.queued; std::vector<uint32_t> firstTags = in.queuedTags;
 	for (size_t i = 0; i < pre.size(); ++i) { if ((int) firstExpected.size() < HV_COMPO_COUNT) { firstExpected.push_back(pre[i]); firstTags.push_back(preTags[i]); } else st.cls("queue_overflow_rejected"); }
+	// requests issued by plan tasks (after the phases, on behalf of region heads) are seen through the logger
+	for (int i = 0; i < x.n && (rs.empty() || i < rs[0].firstEv); ++i) if (x.tr[i].kind == E_LOG_TRANSITION && !(i > 0 && x.tr[i - 1].kind == E_ACT_REQ) && x.tr[i].state >= 0 && (int) firstExpected.size() < HV_COMPO_COUNT) { firstExpected.push_back(Req{x.tr[i].a, x.tr[i].b}); firstTags.push_back(0xFFFFFFFEu /* payload of the task: not tracked here */); }
 	in.lastFirstExpected = firstExpected; in.lastFirstTags = firstTags;
 	const bool planActivity = in.plansUsed;
 	if (rs.size() > 1) ++S.multiRound;
@@ -387,7 +408,7 @@ void Walker::judgeProcessing(Inst& in, const char* what, const Cfg& before, cons
 			bool same = expect.size() == rs[k].pend.size();
 			for (size_t i = 0; same && i < expect.size(); ++i) same = expect[i].type == rs[k].pend[i].type && expect[i].dest == rs[k].pend[i].dest;
 			if (!same) { std::snprintf(buf, sizeof buf, "round %zu: guards saw %zu pending transitions, %zu were requested for this round (%s, step %u)", k, rs[k].pend.size(), expect.size(), what, S.stepNo); S.violation("C04", buf); }
-			else for (size_t i = 0; i < expect.size(); ++i) if (etags[i] != rs[k].tags[i]) { std::snprintf(buf, sizeof buf, "round %zu pending transition %zu (%s -> %d) carries payload tag %x, it was requested with %x (%s, step %u)", k, i, TTN[expect[i].type], expect[i].dest, rs[k].tags[i], etags[i], what, S.stepNo); S.violation("C14", buf); }
+			else for (size_t i = 0; i < expect.size(); ++i) if (etags[i] != rs[k].tags[i] && etags[i] != 0xFFFFFFFEu) { std::snprintf(buf, sizeof buf, "round %zu pending transition %zu (%s -> %d) carries payload tag %x, it was requested with %x (%s, step %u)", k, i, TTN[expect[i].type], expect[i].dest, rs[k].tags[i], etags[i], what, S.stepNo); S.violation("C14", buf); }
 		}
 	}
 
@@ -430,7 +451,10 @@ void Walker::judgeProcessing(Inst& in, const char* what, const Cfg& before, cons
 	};
 	if (rs.empty()) { for (auto& r : firstExpected) { applyTracked(r); applied.push_back(r); } }
 	else {
-		for (auto& r : rs) {
+		for (size_t rk = 0; rk < rs.size(); ++rk) { auto& r = rs[rk];
+			// generator outputs are taken in the order the library consumed them, re-aligned at every round: what a vetoed round drew
+			// (possibly differently, see overlapping requests) must not shift the outputs of the rounds that follow
+			{ int used = 0; if (rk > 0) { int lastGuardEv = rs[rk - 1].firstEv; for (int i = rs[rk - 1].firstEv; i <= rs[rk - 1].lastEv; ++i) if (isGuard(x.tr[i])) lastGuardEv = i; for (int i = 0; i <= lastGuardEv; ++i) if (x.tr[i].kind == E_RNG) ++used; } m.env.rndUsed = used; }
 			short backup[HV_COMPO_COUNT]; char backupRemain[HV_COMPO_COUNT]; std::memcpy(backup, m.req, sizeof backup); std::memcpy(backupRemain, m.remain, sizeof backupRemain);
 			const size_t fp = footprints.size(); const int tr0 = transitionReqs;
 			for (auto& p : r.pend) applyTracked(p);
@@ -521,19 +545,19 @@ void Walker::step(const Op& o, size_t index) {
 	case OP_UPDATE: { installScript(in, o); in.outstandingMarks = false; in.inUpdateOrReact = true;
 		OrderModel om(before, x); om.phase(Method::PRE_UPDATE, true, true, false); om.phase(Method::UPDATE, true, true, false); om.phase(Method::POST_UPDATE, false, false, false);
 		std::vector<std::vector<PTask>> plansBefore; for (int r = 0; r < HV_REGION_COUNT; ++r) plansBefore.push_back(readPlan(in, r)); std::memcpy(in.markS0, in.markS, sizeof in.markS); std::memcpy(in.markF0, in.markF, sizeof in.markF);
-		f.update(); afterCall(in, what, true); in.inUpdateOrReact = false; judgeOrder(in, om, what); judgePlans(in, plansBefore, wasActive, what); judgeProcessing(in, what, before, wasActive); break; }
+		LIB(f.update()); afterCall(in, what, true); in.inUpdateOrReact = false; judgeOrder(in, om, what); judgePlans(in, plansBefore, wasActive, what); judgeProcessing(in, what, before, wasActive); break; }
 	case OP_REACT_A: { installScript(in, o); in.outstandingMarks = false; in.inUpdateOrReact = true;
 		OrderModel om(before, x); om.phase(Method::PRE_REACT, !BOTTOMUP, true, true); om.phase(Method::REACT, !BOTTOMUP, true, true); om.phase(Method::POST_REACT, BOTTOMUP, false, true);
 		std::vector<std::vector<PTask>> plansBefore; for (int r = 0; r < HV_REGION_COUNT; ++r) plansBefore.push_back(readPlan(in, r)); std::memcpy(in.markS0, in.markS, sizeof in.markS); std::memcpy(in.markF0, in.markF, sizeof in.markF);
-		f.react(EvA{(int) o.a0}); afterCall(in, what, true); in.inUpdateOrReact = false; judgeOrder(in, om, what); judgePlans(in, plansBefore, wasActive, what); judgeProcessing(in, what, before, wasActive); break; }
+		LIB(f.react(EvA{(int) o.a0})); afterCall(in, what, true); in.inUpdateOrReact = false; judgeOrder(in, om, what); judgePlans(in, plansBefore, wasActive, what); judgeProcessing(in, what, before, wasActive); break; }
 	case OP_REACT_B: { installScript(in, o); in.outstandingMarks = false; in.inUpdateOrReact = true;
 		OrderModel om(before, x); // an event no state handles reaches only the library's default handlers: no user callback at all
 		std::vector<std::vector<PTask>> plansBefore; for (int r = 0; r < HV_REGION_COUNT; ++r) plansBefore.push_back(readPlan(in, r)); std::memcpy(in.markS0, in.markS, sizeof in.markS); std::memcpy(in.markF0, in.markF, sizeof in.markF);
-		f.react(EvB{(int) o.a0}); afterCall(in, what, true); in.inUpdateOrReact = false; judgeOrder(in, om, what); judgePlans(in, plansBefore, wasActive, what); judgeProcessing(in, what, before, wasActive); break; }
+		LIB(f.react(EvB{(int) o.a0})); afterCall(in, what, true); in.inUpdateOrReact = false; judgeOrder(in, om, what); judgePlans(in, plansBefore, wasActive, what); judgeProcessing(in, what, before, wasActive); break; }
 	case OP_QUERY: case OP_QUERY_B: {
 		installScript(in, o);
 		OrderModel om(before, x); if (o.kind == OP_QUERY) om.phase(Method::QUERY, !BOTTOMUP, false, true);
-		if (o.kind == OP_QUERY) { EvA e{(int) o.a0}; const_cast<const Instance&>(f).query(e); } else { EvB e{(int) o.a0}; const_cast<const Instance&>(f).query(e); }
+		if (o.kind == OP_QUERY) { EvA e{(int) o.a0}; LIB(const_cast<const Instance&>(f).query(e)); } else { EvB e{(int) o.a0}; LIB(const_cast<const Instance&>(f).query(e)); }
 		afterCall(in, what, true); judgeOrder(in, om, what);
 		const Cfg after = readCfg(f);
 		if (!after.sameActive(before) || !after.sameResumable(before)) S.violation("C05", "query() changed the configuration");
@@ -565,7 +589,7 @@ void Walker::step(const Op& o, size_t index) {
 	case OP_PLAN_CLEAR: f.plan((RegionID) (o.a0 % HV_REGION_COUNT)).clear(); afterCall(in, what, true); break;
 	case OP_PLAN_REMOVE: { auto p = f.plan((RegionID) (o.a0 % HV_REGION_COUNT)); int k = 0; for (auto it = p.begin(); it; ++it, ++k) if ((o.a1 >> (k % 8)) & 1) it.remove(); afterCall(in, what, true); break; }
 	case OP_RESET: {
-		f.reset(); afterCall(in, what, true);
+		LIB(f.reset()); afterCall(in, what, true);
 		Model fresh; fresh.env = Env{x.sel, x.util, x.rank, x.rnd, 0}; fresh.initial();
 		const Cfg lib = readCfg(f);
 		if (!fresh.randomNone && !(RNG_BUILTIN && fresh.usedRandom) && (!lib.sameActive(fresh.cfg) || !lib.sameResumable(fresh.cfg))) S.violation("C02", "reset() did not re-activate the machine as its first activation would: library " + lib.str() + " prescribed " + fresh.cfg.str());
@@ -576,9 +600,9 @@ void Walker::step(const Op& o, size_t index) {
 	case OP_ENTER_EXIT:
 		if (!MANUAL) break;
 #ifdef HV_MANUAL
-		if (in.on) { f.exit(); in.on = false; afterCall(in, "exit()", false); in.queued.clear(); in.queuedTags.clear(); in.model.off(); in.clearPlanBook();
+		if (in.on) { LIB(f.exit()); in.on = false; afterCall(in, "exit()", false); in.queued.clear(); in.queuedTags.clear(); in.model.off(); in.clearPlanBook();
 			for (int s = 0; s < HV_NS; ++s) if (in.entered[s]) { char b[120]; std::snprintf(b, sizeof b, "state %d still entered after exit() returned", s); S.violation("C03", b); in.entered[s] = false; } }
-		else { x.initialActivation = true; f.enter(); x.initialActivation = false; in.on = true; afterCall(in, "enter()", true); firstActivation(in); }
+		else { x.initialActivation = true; LIB(f.enter()); x.initialActivation = false; in.on = true; afterCall(in, "enter()", true); firstActivation(in); }
 		if (S.replica) { Inst& b = *S.inst[1]; b.ctx.beginStep(S.stepNo); std::memcpy(b.ctx.sel, x.sel, sizeof x.sel); std::memcpy(b.ctx.util, x.util, sizeof x.util); std::memcpy(b.ctx.rank, x.rank, sizeof x.rank); std::memcpy(b.ctx.rnd, x.rnd, sizeof x.rnd);
 			if (!in.on && b.on) { b.fsm->exit(); b.on = false; afterCall(b, "exit() (replica)", false); for (auto& e : b.entered) e = false; b.model.off(); }
 			else if (in.on && !b.on) { b.ctx.initialActivation = true; b.fsm->enter(); b.ctx.initialActivation = false; b.on = true; afterCall(b, "enter() (replica)", true); firstActivation(b); } }
@@ -647,7 +671,7 @@ void Walker::judgeHistory(Inst& in, const char* what, const std::vector<Round>& 
 		S.violation("C09", o.str());
 	} else {
 		if (expect.size() >= 2) st.cls("history_steps_with_2plus_transitions");
-		for (unsigned i = 0; i < prev.count(); ++i) if (tagOf(prev[i]) != etags[i]) { std::snprintf(buf, sizeof buf, "previousTransitions()[%u] (%s -> %d) carries payload tag %x, it was requested with %x (%s, step %u)", i, TTN[expect[i].type], expect[i].dest, tagOf(prev[i]), etags[i], what, S.stepNo); S.violation("C14", buf); }
+		for (unsigned i = 0; i < prev.count(); ++i) if (tagOf(prev[i]) != etags[i] && etags[i] != 0xFFFFFFFEu) { std::snprintf(buf, sizeof buf, "previousTransitions()[%u] (%s -> %d) carries payload tag %x, it was requested with %x (%s, step %u)", i, TTN[expect[i].type], expect[i].dest, tagOf(prev[i]), etags[i], what, S.stepNo); S.violation("C14", buf); }
 #if HV_PAYLOAD != 0
 		for (unsigned i = 0; i < prev.count(); ++i) if (prev[i].payload() && (reinterpret_cast<uintptr_t>(prev[i].payload()) % alignof(Payload)) != 0) S.violation("C14", "payload storage is not aligned for the payload type");
 #endif
@@ -903,13 +927,13 @@ void Walker::saveLoad(Inst& src, Inst& dst) {
 	bool srcAct[HV_NS], srcRes[HV_NS], dstWas[HV_NS];
 	for (int s = 0; s < HV_NS; ++s) { srcAct[s] = src.on && src.fsm->isActive((StateID) s); srcRes[s] = src.on && src.fsm->isResumable((StateID) s); dstWas[s] = dst.on && dst.fsm->isActive((StateID) s); }
 	src.ctx.beginStep(S.stepNo);
-	const_cast<const Instance&>(*src.fsm).save(g.buf);
+	LIB(const_cast<const Instance&>(*src.fsm).save(g.buf));
 	for (int i = 0; i < src.ctx.n; ++i) if (src.ctx.tr[i].kind == E_CB) { S.violation("C08", std::string("save() invoked ") + MN[src.ctx.tr[i].method]); break; }
 	if (src.on) { const Cfg after = readCfg(*src.fsm); if (!after.sameActive(cs) || !after.sameResumable(cs)) S.violation("C08", "save() changed the saved instance"); }
 	for (int i = 0; i < 64; ++i) if (g.pre[i] != 0xA5 || g.post[i] != 0x5A) { S.violation("C08", "save() wrote outside the serialization buffer"); break; }
 	Ctx& x = dst.ctx; x.beginStep(S.stepNo);
 	x.initialActivation = !dst.on;
-	dst.fsm->load(g.buf);
+	LIB(dst.fsm->load(g.buf));
 	x.initialActivation = false;
 	const bool dstOnBefore = dst.on;
 	dst.on = src.on;
@@ -947,7 +971,7 @@ void Walker::replicaFollow(Inst& a, const char* what, bool singleRoundNoSchedule
 	Ctx& x = b.ctx; x.beginStep(S.stepNo);
 	if (prev.count()) {
 		std::memcpy(x.sel, a.ctx.sel, sizeof x.sel); std::memcpy(x.util, a.ctx.util, sizeof x.util); std::memcpy(x.rank, a.ctx.rank, sizeof x.rank); std::memcpy(x.rnd, a.ctx.rnd, sizeof x.rnd);
-		const bool ok = b.fsm->replayTransitions(prev);
+		bool ok = false; LIB(ok = b.fsm->replayTransitions(prev));
 		++S.replays; st.cls("replays");
 		afterCall(b, "replayTransitions", true);
 		for (int i = 0; i < x.n; ++i) if (isGuard(x.tr[i])) { S.violation("C09", std::string("replayTransitions() consulted a guard (") + what + ")"); break; }
